@@ -173,7 +173,7 @@ theorem eval_pure_no_exit (xc : X.Ctx) : ∀ (fuel : Nat) (e : X.Expr) (σ : X.S
       | num x => simp at h
       | bool b => simp at h
       | name n => simp only at h; unfold liftE at h; split at h <;> simp at h
-      | str bs => simp [pureE] at hp
+      | str bs => simp only at h; unfold liftE Res.bind at h; cases hpk : X.packString bs <;> rw [hpk] at h <;> simp at h
       | sub n i =>
         simp only [pureE] at hp
         simp only at h
